@@ -113,6 +113,8 @@ def discrete_stage(st, tier, seed, binary, tag, ncases=None, extra_cases=None, g
             op = c.ops[k] if 0 <= k < len(c.ops) else None
             sg.disagree.append((src.get(c.id), 'case %s op#%d %s: implementation=%s model=%s' % (
                 c.id, k, ' '.join(op[0]) if op else '?', ' '.join(op[1]) if op else '?', m)))
+    if st in ('hllc', 'hll'):
+        aux_relerr(sg, tcs, src)
     for tc in tcs[:2] + tcs[-1:]:
         sg.samples.append({'structure': st, 'case': tc.id, 'cfg': tc.cfg, 'ops': [' '.join(o[0]) + ' => ' + ' '.join(o[1]) for o in tc.ops[:12]]})
     sg.rule = ('cases from tools/gen.py (one PRNG seeded by VERIF_SEED) plus the corpus; a case is non-trivial when it has >= 3 ops and '
@@ -542,3 +544,70 @@ def res_statistical(seed, bins, tag, runs=4000):
                 break
     sg.wall = time.time() - t0
     return sg
+
+
+def aux_relerr(sg, tcs, src):
+    """relative_error() = sqrt(3 ln 2 - 1) / sqrt(m), compared with a float evaluation to 1e-13 relative"""
+    import math, struct
+    for tc in tcs:
+        b = None
+        for op, res, w in tc.ops:
+            if op[0] in ('new', 'fromregs') and res != ['panic']:
+                b = int(op[2])
+            if op[0] == 'relerr' and res not in (['panic'], ['skipped']) and b is not None:
+                got = struct.unpack('<d', struct.pack('<Q', int(res[0])))[0]
+                want = math.sqrt(3 * math.log(2) - 1) / math.sqrt(2 ** b)
+                if not (abs(got - want) <= 1e-13 * want):
+                    sg.failures.append(('C03', 'relative_error()=%r for b=%d, expected sqrt(3 ln 2 - 1)/sqrt(m)=%r' % (got, b, want), src.get(tc.id)))
+            if op[0] == 'count' and res == ['panic']:
+                sg.failures.append(('C03', 'count() panicked (b=%s)' % b, src.get(tc.id)))
+
+def hll_accuracy_stage(prop, tier, seed, bins, tag):
+    """failing-input search for the statistical sentence of C03 (runs only after a break): RMS, mean and 3-sigma tail
+    of the relative error of count() over seeded hash streams, per (b, n) cell, with generous margins"""
+    sg = Stage('statistical-accuracy:hll')
+    if tier != 'search':
+        return [sg]
+    t0 = time.time()
+    import math
+    rng = random.Random(seed)
+    seeds = 60
+    cases, index = [], {}
+    for b in (4, 6, 8, 10, 12, 14):
+        m = 1 << b
+        for mult in (0.1, 0.4, 1.0, 3.0, 6.0, 20.0, 50.0):
+            n = max(1, int(m * mult))
+            if n * seeds > 6_000_000:
+                continue
+            for r in range(seeds):
+                cid = 'a%d_%d_%d' % (b, n, r)
+                cases.append(gen.case(cid, 'hll', {'hasher': 'sip'}, ['new 0 %d' % b, 'fill 0 %d %d' % (n, rng.randrange(1 << 60)), 'count 0']))
+                index[cid] = (b, n, mult)
+    path = os.path.join(build.BUILD, '%s_hlla.cases' % tag)
+    gen.write_cases(path, cases)
+    try:
+        tcs = corr.parse_transcript(corr.run_harness(bins.get('release') or bins['debug'], path))
+    except Exception as e:
+        sg.errors.append('harness run failed: %s' % e)
+        return [sg]
+    sg.cases = len(tcs)
+    cells = collections.defaultdict(list)
+    for tc in tcs:
+        b, n, mult = index[tc.id]
+        res = tc.ops[-1][1]
+        if res in (['panic'], ['skipped']):
+            sg.failures.append(('C03', 'count() panicked after %d adds (b=%d)' % (n, b), None))
+            continue
+        cells[(b, n, mult)].append((int(res[0]) - n) / n)
+    for (b, n, mult), errs in sorted(cells.items()):
+        re_ = math.sqrt(3 * math.log(2) - 1) / math.sqrt(2 ** b)
+        rms = math.sqrt(sum(e * e for e in errs) / len(errs))
+        mean = sum(errs) / len(errs)
+        tail = sum(1 for e in errs if abs(e) > 3 * re_) / len(errs)
+        bump = 0.5 <= mult <= 2.0
+        lim_rms = (3.0 if bump else 1.6) * re_ + 2.0 / n
+        if rms > lim_rms or abs(mean) > 0.7 * re_ + 2.0 / n or tail > 0.15:
+            sg.failures.append(('C03', 'b=%d n=%d over %d seeds: rms=%.4f mean=%.4f tail(3x)=%.2f, relative_error()=%.4f' % (b, n, len(errs), rms, mean, tail, re_),
+                                gen.case('acc_b%d_n%d' % (b, n), 'hll', {'hasher': 'sip'}, ['new 0 %d' % b, 'fill 0 %d <seed>' % n, 'count 0'])))
+    sg.wall = time.time() - t0
+    return [sg]
